@@ -94,8 +94,8 @@ theorem loop_hinv (sp : Spec) : ∀ (fuel : Nat) (s : Scan) (l : Lexer) (s' : Sc
             | some bt =>
               rw [hbt] at h
               simp only [Option.map_some] at h
-              exact ih _ l s' l' hp ⟨hh.tok_le, hh.bd, hh.hash, Or.inr hh.hash⟩ h
-          · exact ih _ l s' l' hp ⟨hh.tok_le, hh.bd, hh.hash, hh.bk⟩ h
+              exact ih _ _ s' l' hp (by exact ⟨hh.tok_le, hh.bd, hh.hash, Or.inr hh.hash⟩) h
+          · exact ih _ _ s' l' hp (by exact ⟨hh.tok_le, hh.bd, hh.hash, hh.bk⟩) h
       · rename_i hch
         have hc : 0 ≤ l.ch := by omega
         split at h
@@ -114,10 +114,582 @@ theorem loop_hinv (sp : Spec) : ∀ (fuel : Nat) (s : Scan) (l : Lexer) (s' : Sc
                   rw [hbt] at hs1
                   simp only [Option.map_some, Option.some.injEq] at hs1
                   subst hs1
-                  exact ih _ _ s' l' hpc (hinv_consume sp.opts sp.v s _ l hp hh hc rfl (Or.inr hh.hash)) h
+                  exact ih _ _ s' l' hpc (by exact hinv_consume sp.opts sp.v s _ l hp hh hc rfl (Or.inr hh.hash)) h
               · simp only [Option.some.injEq] at hs1
                 subst hs1
-                exact ih _ _ s' l' hpc (hinv_consume sp.opts sp.v s _ l hp hh hc rfl hh.bk) h
-          · exact ih _ l s' l' hp ⟨hh.tok_le, hh.bd, hh.hash, hh.bk⟩ h
+                exact ih _ _ s' l' hpc (by exact hinv_consume sp.opts sp.v s _ l hp hh hc rfl hh.bk) h
+          · exact ih _ _ s' l' hp (by exact ⟨hh.tok_le, hh.bd, hh.hash, hh.bk⟩) h
+
+/-! ### the loop invariant along single steps -/
+
+theorem linv_char_final (sp : Spec) (w : WFacts sp) (s : Scan) (l : Lexer) (e : Int) (inv : LInv sp s l)
+    (hs0 : 0 ≤ s.state) (hch0 : 0 ≤ l.ch)
+    (he : getI sp.t.dfa (s.state * sp.t.numSymbols + classOf sp.cm l.ch) = some e)
+    (hle : e ≤ actionStart sp.t) : LInv sp { s with state := e } l := by
+  obtain ⟨c0, c1⟩ := classOf_range sp.cm sp.t.numSymbols w.cm_ok l.ch
+  have hneg : e < 0 := by have := actionStart_neg sp.t; omega
+  refine ⟨inv.pinv, inv.tok_le, by show e < _; omega, fun _ => finalOk_of_dfa sp w _ e he hle, inv.bk, ?_⟩
+  intro heq
+  obtain ⟨hb, _, h3⟩ := inv.fresh heq
+  refine ⟨hb, fun _ => ?_, fun h0 => absurd h0 (by show ¬ 0 ≤ e; omega)⟩
+  show e = invCode sp
+  rcases (h3 hs0).1 hch0 _ c0 c1 e he with h | h
+  · omega
+  · exact h
+
+theorem linv_char_ckpt (sp : Spec) (w : WFacts sp) (s : Scan) (l : Lexer) (e : Int) (inv : LInv sp s l)
+    (hs0 : 0 ≤ s.state) (hch0 : 0 ≤ l.ch)
+    (he : getI sp.t.dfa (s.state * sp.t.numSymbols + classOf sp.cm l.ch) = some e)
+    (hgt : e > actionStart sp.t) (hneg : e < 0) (bt : Checkpoint) (hbt : getI sp.t.backtrack (-1 - e) = some bt) :
+    LInv sp ⟨bt.nextState, hashStep s.hash l.ch, bt.action, l.offset, s.hash⟩ (consume sp.opts sp.v l) ∧
+    l.tokenOffset < l.offset ∧ 0 ≤ bt.action ∧ 0 ≤ bt.nextState := by
+  obtain ⟨c0, c1⟩ := classOf_range sp.cm sp.t.numSymbols w.cm_ok l.ch
+  obtain ⟨p1, p2, p3, p4, p5, p6, p7, p8, p9⟩ := consume_pinv sp.opts sp.v l inv.pinv hch0
+  obtain ⟨b1, b2, b3⟩ := w.bt_ok _ bt hbt
+  have htl := inv.tok_le
+  have hne : l.offset ≠ l.tokenOffset := by
+    intro heq
+    obtain ⟨_, _, h3⟩ := inv.fresh heq
+    have := (h3 hs0).1 hch0 _ c0 c1 e he
+    have := invCode_le sp w
+    omega
+  have hlt : l.tokenOffset < l.offset := by omega
+  refine ⟨⟨p1, by rw [p6, p2]; omega, b2, fun h => absurd h (by show ¬ bt.nextState < 0; omega),
+      Or.inr ⟨b3, by rw [p6]; exact hlt, by rw [p2]; exact Nat.le_of_lt p3⟩, ?_⟩, hlt, (actOk_facts sp _ b3).1, b1⟩
+  intro heq; rw [p6, p2] at heq; omega
+
+theorem linv_char_move (sp : Spec) (w : WFacts sp) (s : Scan) (l : Lexer) (e : Int) (inv : LInv sp s l)
+    (hch0 : 0 ≤ l.ch)
+    (he : getI sp.t.dfa (s.state * sp.t.numSymbols + classOf sp.cm l.ch) = some e)
+    (hnn : ¬ e < 0) :
+    LInv sp { s with state := e, hash := hashStep s.hash l.ch } (consume sp.opts sp.v l) := by
+  obtain ⟨p1, p2, p3, p4, p5, p6, p7, p8, p9⟩ := consume_pinv sp.opts sp.v l inv.pinv hch0
+  have htl := inv.tok_le
+  refine ⟨p1, by rw [p6, p2]; omega, (w.dfa_ok _ e he).1, fun h => absurd h (by show ¬ e < 0; omega), ?_, ?_⟩
+  · rcases inv.bk with hb | ⟨hb1, hb2, hb3⟩
+    · exact Or.inl hb
+    · exact Or.inr ⟨hb1, by rw [p6]; exact hb2, by rw [p2]; show s.backupOffset ≤ _; omega⟩
+  · intro heq; rw [p6, p2] at heq; omega
+
+theorem linv_eoi_final (sp : Spec) (w : WFacts sp) (s : Scan) (l : Lexer) (e : Int) (inv : LInv sp s l)
+    (hs0 : 0 ≤ s.state) (hch : l.ch < 0)
+    (he : getI sp.t.dfa (s.state * sp.t.numSymbols) = some e) (hle : e ≤ actionStart sp.t) :
+    LInv sp { s with state := e } l := by
+  have hneg : e < 0 := by have := actionStart_neg sp.t; omega
+  refine ⟨inv.pinv, inv.tok_le, by show e < _; omega, fun _ => finalOk_of_dfa sp w _ e he hle, inv.bk, ?_⟩
+  intro heq
+  obtain ⟨hb, _, h3⟩ := inv.fresh heq
+  refine ⟨hb, fun _ => ?_, fun h0 => absurd h0 (by show ¬ 0 ≤ e; omega)⟩
+  obtain ⟨f', hf'⟩ := (h3 hs0).2 hch
+  cases f' with
+  | zero => simp [eoiChainNC] at hf'
+  | succ f' =>
+    simp only [eoiChainNC, he, hle, if_true, Option.some.injEq] at hf'
+    show e = invCode sp
+    unfold invCode; omega
+
+/-! ### the loop against `Tables.Scan` -/
+
+/-- The generated class lookup agrees with the symbol map of the tables on every character the lexer
+can read (`DriverC11.classMapOk`, an enumeration of all 0x110000 runes / 256 bytes). -/
+def ClassOk (sp : Spec) : Prop :=
+  ∀ r : Nat, r < charBound sp.opts.scanBytes → symOf sp.t (r : Int) = some (classOf sp.cm (r : Int))
+
+theorem classOk_of (sp : Spec) (h : classMapOkUpTo sp (charBound sp.opts.scanBytes) = true) : ClassOk sp := by
+  intro r hr
+  simp only [classMapOkUpTo, List.all_eq_true, List.mem_range, beq_iff_eq] at h
+  exact h r hr
+
+theorem eoiFinal_spec (sp : Spec) (h : eoiFinal sp.t = true) (q : Int) (hq0 : 0 ≤ q)
+    (hq : q < (numStates sp.t : Int)) (e : Int) (he : getI sp.t.dfa (q * sp.t.numSymbols) = some e) :
+    e ≤ actionStart sp.t := by
+  simp only [eoiFinal, List.all_eq_true, List.mem_range] at h
+  have := h q.toNat (by omega)
+  rw [show ((q.toNat : Nat) : Int) = q by omega, he] at this
+  simpa using this
+
+/-- The backup variables of the loop against the `size/action` results of `Scan`. -/
+def BRel (s : Scan) (tok size : Nat) (action : Int) : Prop :=
+  (s.backup = -1 ∧ size = 0) ∨ (0 ≤ s.backup ∧ size = s.backupOffset - tok ∧ 0 < size ∧ action = s.backup)
+
+/-- What `Scan` returns, read off the final loop state. -/
+def scanResult (sp : Spec) (s' : Scan) (l' : Lexer) : Nat × Int :=
+  if actionStart sp.t - s'.state = invalidAct sp ∧ 0 ≤ s'.backup then (s'.backupOffset - l'.tokenOffset, s'.backup)
+  else (l'.offset - l'.tokenOffset, actionStart sp.t - s'.state)
+
+theorem loop_exit (sp : Spec) (fuel : Nat) (s : Scan) (l : Lexer) (s' : Scan) (l' : Lexer)
+    (hneg : s.state < 0) (h : loop sp fuel s l = some (s', l')) : s' = s ∧ l' = l := by
+  cases fuel with
+  | zero => simp [loop] at h
+  | succ fuel =>
+    simp only [loop, hneg, if_true, Option.some.injEq, Prod.mk.injEq] at h
+    exact ⟨h.1.symm, h.2.symm⟩
+
+theorem scan_final (sp : Spec) (s : Scan) (l : Lexer) (st : Int) (size : Nat) (action : Int)
+    (hb : BRel s l.tokenOffset size action) :
+    (if actionStart sp.t - invalidAct sp = st ∧ size > 0 then some (size, action)
+      else some (l.offset - l.tokenOffset, actionStart sp.t - st)) =
+    some (scanResult sp { s with state := st } l) := by
+  unfold scanResult
+  simp only
+  rcases hb with ⟨b1, b2⟩ | ⟨b1, b2, b3, b4⟩
+  · have h1 : ¬ (actionStart sp.t - invalidAct sp = st ∧ size > 0) := by omega
+    have h2 : ¬ (actionStart sp.t - st = invalidAct sp ∧ 0 ≤ s.backup) := by omega
+    simp only [h1, h2, if_false]
+  · by_cases hst : actionStart sp.t - invalidAct sp = st
+    · have h1 : actionStart sp.t - invalidAct sp = st ∧ size > 0 := ⟨hst, b3⟩
+      have h2 : actionStart sp.t - st = invalidAct sp ∧ 0 ≤ s.backup := ⟨by omega, b1⟩
+      subst b2 b4
+      simp only [h1, h2, and_self, if_true]
+    · have h1 : ¬ (actionStart sp.t - invalidAct sp = st ∧ size > 0) := fun h => hst h.1
+      have h2 : ¬ (actionStart sp.t - st = invalidAct sp ∧ 0 ≤ s.backup) := fun h => hst (by omega)
+      simp only [h1, h2, if_false]
+
+/-- **The loop of `Next` is `Tables.Scan`.** -/
+theorem loop_scan (sp : Spec) (w : WFacts sp) (hc : ClassOk sp) (he : eoiFinal sp.t = true) :
+    ∀ (fuel : Nat) (s : Scan) (l : Lexer) (s' : Scan) (l' : Lexer), LInv sp s l → 0 ≤ s.state →
+    loop sp fuel s l = some (s', l') → ∀ (size : Nat) (action : Int), BRel s l.tokenOffset size action →
+    scanLoopG sp.t (invalidAct sp) (chars sp.opts.scanBytes (l.source.drop l.offset))
+      (l.offset - l.tokenOffset) s.state size action = some (scanResult sp s' l') := by
+  intro fuel
+  induction fuel with
+  | zero => intro s l s' l' _ _ h; simp [loop] at h
+  | succ fuel ih =>
+    intro s l s' l' inv hs0 h size action hb
+    have hns : ¬ s.state < 0 := by omega
+    simp only [loop, hns, if_false] at h
+    by_cases hch : l.ch < 0
+    · -- end of input
+      simp only [hch, if_true] at h
+      rw [pinv_eoi inv.pinv hch, chars_nil]
+      simp only [scanLoopG]
+      cases hst : getI sp.t.dfa (s.state * sp.t.numSymbols) with
+      | none => rw [hst] at h; exact nomatch h
+      | some st =>
+        rw [hst] at h
+        simp only at h ⊢
+        have hle := eoiFinal_spec sp he s.state hs0 inv.st_lt st hst
+        have hnc : ¬ (st > actionStart sp.t ∧ st < 0) := by omega
+        simp only [hnc, if_false] at h
+        have hneg : st < 0 := by have := actionStart_neg sp.t; omega
+        obtain ⟨e1, e2⟩ := loop_exit sp fuel _ l s' l' hneg h
+        rw [e1, e2]
+        exact scan_final sp s l st size action hb
+    · have hch0 : 0 ≤ l.ch := by omega
+      simp only [hch, if_false] at h
+      obtain ⟨b, rest, hd, hchr, hso⟩ := pinv_char inv.pinv hch0
+      obtain ⟨p1, p2, p3, p4, p5, p6, _⟩ := consume_pinv sp.opts sp.v l inv.pinv hch0
+      have htl := inv.tok_le
+      rw [hd, chars_cons]
+      have hsym : symOf sp.t (readChar sp.opts.scanBytes (b :: rest)).1 = some (classOf sp.cm l.ch) := by
+        rw [← hchr]
+        have hlt := readChar_lt sp.opts.scanBytes b rest
+        rw [← hchr] at hlt
+        have := hc l.ch.toNat (by omega)
+        rw [show ((l.ch.toNat : Nat) : Int) = l.ch by omega] at this
+        exact this
+      have hrestChars : (b :: rest).drop (readChar sp.opts.scanBytes (b :: rest)).2 =
+          (consume sp.opts sp.v l).source.drop (consume sp.opts sp.v l).offset := by
+        rw [p5, p2, hso, ← hd, List.drop_drop]
+      have hidx : l.offset - l.tokenOffset + (readChar sp.opts.scanBytes (b :: rest)).2 =
+          (consume sp.opts sp.v l).offset - (consume sp.opts sp.v l).tokenOffset := by
+        rw [p2, p6, hso]; omega
+      simp only [scanLoopG, hsym]
+      cases hst : getI sp.t.dfa (s.state * sp.t.numSymbols + classOf sp.cm l.ch) with
+      | none => rw [hst] at h; exact nomatch h
+      | some st =>
+        rw [hst] at h
+        simp only at h ⊢
+        by_cases hgt : st > actionStart sp.t
+        · simp only [hgt, if_true] at h
+          by_cases hneg : st < 0
+          · -- checkpoint
+            simp only [hneg, if_true, takeCheckpoint] at h ⊢
+            cases hbt : getI sp.t.backtrack (-1 - st) with
+            | none => rw [hbt] at h; simp at h
+            | some bt =>
+              rw [hbt] at h
+              simp only [Option.map_some] at h ⊢
+              obtain ⟨i1, i2, i3, i4⟩ := linv_char_ckpt sp w s l st inv hs0 hch0 hst hgt hneg bt hbt
+              have := ih _ _ s' l' i1 i4 h (l.offset - l.tokenOffset) bt.action
+                (Or.inr ⟨i3, by rw [p6], by omega, rfl⟩)
+              rw [hrestChars, hidx]
+              simp only [hgt, if_true]
+              exact this
+          · -- plain transition
+            simp only [hneg, if_false] at h ⊢
+            have i1 := linv_char_move sp w s l st inv hch0 hst hneg
+            have := ih _ _ s' l' i1 (by show 0 ≤ st; omega) h size action (by rw [p6]; exact hb)
+            rw [hrestChars, hidx]
+            exact this
+        · -- final action
+          simp only [hgt, if_false] at h
+          have hneg : st < 0 := by have := actionStart_neg sp.t; omega
+          obtain ⟨e1, e2⟩ := loop_exit sp fuel _ l s' l' hneg h
+          rw [e1, e2]
+          simp only [hneg, if_true, hgt, if_false]
+          exact scan_final sp s l st size action hb
+
+/-! ### keyword specialisation: hash switch = lookup by text -/
+
+def IsAscii (s : List UInt8) : Prop := ∀ b ∈ s, b.toNat < 0x80
+
+theorem decodeAll_ascii (n : Nat) : ∀ (s : List UInt8), IsAscii s → decodeAll true n s = decodeAll false n s := by
+  induction n with
+  | zero => intro s _; rfl
+  | succ n ih =>
+    intro s hs
+    cases s with
+    | nil => rfl
+    | cons b rest =>
+      have hb : ¬ b.toNat ≥ 0x80 := by have := hs b (by simp); omega
+      have hr : readChar true (b :: rest) = readChar false (b :: rest) := by
+        simp [readChar, hb]
+      simp only [decodeAll, hr]
+      have hw : (readChar false (b :: rest)).2 = 1 := by simp [readChar, hb]
+      rw [hw]
+      simp only [List.drop_succ_cons, List.drop_zero]
+      rw [ih rest (fun x hx => hs x (by simp [hx]))]
+
+/-- The hash the generated lexer accumulates over a text equals the hash `asStringSwitch` computed for
+the same text: always in rune mode, always once `stringHash` hashes bytes for byte-mode lexers, and
+for ASCII texts in any case. -/
+theorem runtime_hash_eq (sb hashFix : Bool) (text : List UInt8)
+    (h : sb = false ∨ hashFix = true ∨ IsAscii text) :
+    runtimeHash sb text = stringHash (hashFix && sb) text := by
+  unfold stringHash
+  cases sb with
+  | false => simp
+  | true =>
+    cases hashFix with
+    | true => rfl
+    | false =>
+      rcases h with h | h | h
+      · exact nomatch h
+      · exact nomatch h
+      · simp only [Bool.false_and, runtimeHash, decodeAll_ascii _ text h]
+
+/-- The generator's keyword hash matches the run-time hash: rune mode, or the fixed generator, or
+ASCII-only keywords. -/
+def HashOk (sp : Spec) : Prop :=
+  sp.opts.scanBytes = false ∨ sp.v.hashFix = true ∨
+  ∀ a m, (a, m) ∈ sp.classActions → ∀ k x, (k, x) ∈ m → IsAscii k
+
+theorem classSwitch_eq_spec (sp : Spec) (hk : HashOk sp) (act : Int) (text : List UInt8) :
+    classSwitch sp act (runtimeHash sp.opts.scanBytes text) text = classSpec sp act text := by
+  unfold classSwitch classSpec
+  split
+  · rfl
+  · rename_i a' m hf
+    obtain ⟨hm, _⟩ := find_classAction sp act a' m hf
+    cases hl : mapLookup m text with
+    | some x =>
+      have hmem := mapLookup_some_mem m text x hl
+      have hh : sp.opts.scanBytes = false ∨ sp.v.hashFix = true ∨ IsAscii text := by
+        rcases hk with h | h | h
+        · exact Or.inl h
+        · exact Or.inr (Or.inl h)
+        · exact Or.inr (Or.inr (h a' m hm text x hmem))
+      rw [runtime_hash_eq _ _ text hh]
+      have := lookup_complete (genHash sp) m text x hl
+      unfold genHash at this ⊢
+      rw [this]
+    | none =>
+      cases hl' : (asStringSwitch (genHash sp) m).lookup (runtimeHash sp.opts.scanBytes text) text with
+      | none => rfl
+      | some x => rw [lookup_sound _ m _ text x hl'] at hl; exact nomatch hl
+
+/-! ### one pass of `Next` against the specification -/
+
+/-- The observable part of an outcome. -/
+def absOut : Outcome → SpecOutcome
+  | .restart l' => .restart l'.offset
+  | .token tok l' => .token tok l'.tokenOffset l'.offset
+
+theorem finish_valid_eq (sp : Spec) (w : WFacts sp) (k : Nat) (act : Int) (s : Scan) (l : Lexer)
+    (ha : actOk sp [] act = true) :
+    ∃ tok, tokenOf sp (classSwitch sp act s.hash l.text) = some tok ∧
+      isInvalid sp (classSwitch sp act s.hash l.text) = false ∧
+      finish sp (k + 1) act s l = some (if sp.spaceActions.contains (classSwitch sp act s.hash l.text) then
+        Outcome.restart l else Outcome.token tok l) := by
+  have hok := classSwitch_ok sp w act s.hash l.text ha
+  obtain ⟨_, hinv, tok, htok, _⟩ := actOk_facts sp _ hok
+  refine ⟨tok, htok, hinv, ?_⟩
+  rw [finish]
+  simp only [htok, hinv, Bool.false_eq_true, if_false]
+  split <;> rfl
+
+theorem specOnce_valid (sp : Spec) (src : List UInt8) (state : Int) (off size : Nat) (act : Int)
+    (hscan : scanG sp.t (invalidAct sp) sp.opts.scanBytes (startIndex sp state) (src.drop off) = some (size, act))
+    (hinv : isInvalid sp act = false) :
+    specOnce sp src state off =
+      match tokenOf sp (classSpec sp act (slice src off (off + size))) with
+      | none => none
+      | some tok =>
+        if sp.spaceActions.contains (classSpec sp act (slice src off (off + size))) then some (.restart (off + size))
+        else some (.token tok off (off + size)) := by
+  unfold specOnce
+  simp only [hscan, hinv, Bool.false_eq_true, if_false]
+  rfl
+
+theorem scanG_eq (sp : Spec) (l : Lexer) (st : Int) (hst : startState sp l = some st) (text : List UInt8) :
+    scanG sp.t (invalidAct sp) sp.opts.scanBytes (startIndex sp l.state) text =
+      scanLoopG sp.t (invalidAct sp) (chars sp.opts.scanBytes text) 0 st 0 0 := by
+  unfold scanG startIndex
+  unfold startState at hst
+  cases hm : sp.multiState <;> simp only [hm, if_true, Bool.false_eq_true, if_false] at hst ⊢ <;> rw [hst] <;> rfl
+
+/-- **One pass of the generated `Next` is one step of the specification**: scan with `Tables.Scan`,
+"no match" → invalid token (one character when nothing was consumed, EOI at the end), otherwise the
+keyword of a class rule by its text, space rules restart. -/
+theorem nextOnce_refines (sp : Spec) (w : WFacts sp) (hc : ClassOk sp) (he : eoiFinal sp.t = true)
+    (hk : HashOk sp) (l : Lexer) (hp : PInv sp.opts sp.v l) (hv : ValidState sp l) (out : Outcome)
+    (h : nextOnce sp l = some out) :
+    specOnce sp l.source l.state l.offset = some (absOut out) := by
+  obtain ⟨st, hst, hmem⟩ := startState_ok sp w l hv
+  have hst' : startState sp (beginToken sp.opts l) = some st := hst
+  obtain ⟨hrow, heoi⟩ := rowOk_of_start sp w st (w.start_ok st hmem)
+  have hsm : 0 ≤ st ∧ st < (numStates sp.t : Int) := by
+    unfold startState at hst
+    split at hst <;> exact w.sm_ok _ st hst
+  have inv : LInv sp ⟨st, 0, -1, 0, 0⟩ (beginToken sp.opts l) :=
+    ⟨beginToken_pinv _ _ l hp, Nat.le_refl _, hsm.2, fun h => absurd h (by show ¬ st < 0; omega), Or.inl rfl,
+      fun _ => ⟨rfl, fun h => absurd h (by show ¬ st < 0; omega), fun _ => ⟨fun _ => hrow, fun _ => heoi⟩⟩⟩
+  obtain ⟨s', l2, h1, h2, h3, h4⟩ := loop_total sp w (loopFuel sp (beginToken sp.opts l)) _ _ inv (Nat.le_refl _)
+  -- the tokenOffset of the pass
+  have htok : l2.tokenOffset = l.offset := h4.tokenOffset
+  have hsrc : l2.source = l.source := h4.source
+  have hinit : HInv sp.opts.scanBytes ⟨st, 0, -1, 0, 0⟩ (beginToken sp.opts l) := by
+    refine ⟨Nat.le_refl _, ?_, ?_, Or.inl rfl⟩
+    · show Boundary _ _ (l.offset - l.offset)
+      rw [Nat.sub_self]; exact Boundary.zero _
+    · show (0 : Nat) = runtimeHash _ (slice l.source l.offset l.offset)
+      unfold slice; rw [Nat.sub_self]; rfl
+  obtain ⟨hh, _⟩ := loop_hinv sp _ _ _ s' l2 (beginToken_pinv _ _ l hp) hinit h1
+  have hscan := loop_scan sp w hc he _ _ _ s' l2 inv hsm.1 h1 0 0 (Or.inl ⟨rfl, rfl⟩)
+  have hscan' : scanG sp.t (invalidAct sp) sp.opts.scanBytes (startIndex sp l.state) (l.source.drop l.offset) =
+      some (scanResult sp s' l2) := by
+    rw [scanG_eq sp l st hst]
+    have : (beginToken sp.opts l).offset - (beginToken sp.opts l).tokenOffset = 0 := Nat.sub_self _
+    rw [this] at hscan
+    exact hscan
+  -- `nextOnce` is `finish` on the loop result
+  have hfin : finish sp 2 (actionStart sp.t - s'.state) s' l2 = some out := by
+    unfold nextOnce at h
+    simp only [hst', h1] at h
+    exact h
+  have htl := h2.tok_le
+  obtain ⟨_, hfinal⟩ := h2.st_fin h3
+  by_cases hact : actionStart sp.t - s'.state = invalidAct sp
+  · -- "no match"
+    obtain ⟨tok0, htok0, _⟩ := w.inv_tok
+    rw [hact, finish] at hfin
+    simp only [classSwitch_inv sp w, htok0, (isInvalid_iff sp _).mpr rfl, if_true] at hfin
+    by_cases hb : s'.backup ≥ 0
+    · -- restore the checkpoint
+      rcases h2.bk with hb' | ⟨b1, b2, b3⟩
+      · omega
+      · obtain ⟨_, binv, _⟩ := actOk_facts sp _ b1
+        simp only [hb, if_true, binv, Bool.not_false] at hfin
+        obtain ⟨r1, r2, r3, r4, _⟩ := rewind_pinv sp.opts sp.v l2 s'.backupOffset (Nat.le_trans b3 h2.pinv.le) h2.pinv
+        obtain ⟨tok, t1, t2, t3⟩ := finish_valid_eq sp w 0 s'.backup { s' with hash := s'.backupHash }
+          (rewind sp.opts sp.v l2 s'.backupOffset) b1
+        rw [t3] at hfin
+        have hres : scanResult sp s' l2 = (s'.backupOffset - l.offset, s'.backup) := by
+          unfold scanResult; rw [htok]; simp [hact, hb]
+        rw [hres] at hscan'
+        rw [specOnce_valid sp l.source l.state l.offset _ _ hscan' binv]
+        have hend : l.offset + (s'.backupOffset - l.offset) = s'.backupOffset := by omega
+        have htext : (rewind sp.opts sp.v l2 s'.backupOffset).text = slice l.source l.offset s'.backupOffset := by
+          unfold Lexer.text; rw [r3, r4, r2, hsrc, htok]
+        have hbh : s'.backupHash = runtimeHash sp.opts.scanBytes (slice l.source l.offset s'.backupOffset) := by
+          rcases hh.bk with hb'' | hb''
+          · omega
+          · rw [hb'', hsrc, htok]
+        have hcs : classSwitch sp s'.backup s'.backupHash (rewind sp.opts sp.v l2 s'.backupOffset).text =
+            classSpec sp s'.backup (slice l.source l.offset s'.backupOffset) := by
+          rw [htext, hbh]; exact classSwitch_eq_spec sp hk _ _
+        simp only at t1 t3 hfin
+        rw [hcs] at t1 hfin
+        rw [hend, t1]
+        simp only [Option.some.injEq] at hfin
+        rw [← hfin]
+        by_cases hsp : sp.spaceActions.contains (classSpec sp s'.backup (slice l.source l.offset s'.backupOffset)) = true
+        · simp only [hsp, if_true, absOut, r2]
+        · have hsp' : sp.spaceActions.contains (classSpec sp s'.backup (slice l.source l.offset s'.backupOffset)) = false := by
+            simpa using hsp
+          simp only [hsp', Bool.false_eq_true, if_false, absOut, r2, r4, htok]
+    · simp only [hb, if_false] at hfin
+      have hres : scanResult sp s' l2 = (l2.offset - l.offset, invalidAct sp) := by
+        unfold scanResult; rw [htok, hact]
+        have : ¬ (invalidAct sp = invalidAct sp ∧ 0 ≤ s'.backup) := by omega
+        rw [if_neg this]
+      rw [hres] at hscan'
+      unfold specOnce
+      simp only [hscan', (isInvalid_iff sp _).mpr rfl, if_true, htok0]
+      by_cases heq : l2.offset = l2.tokenOffset
+      · simp only [heq, if_true] at hfin
+        have hsz : l2.offset - l.offset = 0 := by omega
+        simp only [hsz, if_true]
+        have hoff : l2.offset = l.offset := by omega
+        by_cases hch : l2.ch < 0
+        · obtain ⟨c1, c2⟩ := h2.pinv.ch_eoi hch
+          have hnil := pinv_eoi h2.pinv hch
+          rw [hsrc, hoff] at hnil
+          rw [hnil]
+          simp only [c1, if_true, Option.some.injEq] at hfin
+          obtain ⟨r1, r2, r3, r4, _⟩ := rewind_pinv sp.opts sp.v l2 l2.scanOffset (by rw [c2]; exact h2.pinv.le) h2.pinv
+          rw [← hfin]
+          simp only [absOut, r2, r4]
+          simp only [htok, c2, hoff]
+        · have hch0 : 0 ≤ l2.ch := by omega
+          obtain ⟨b, rest, hd, _, hso⟩ := pinv_char h2.pinv hch0
+          rw [hsrc, hoff] at hd
+          rw [hd]
+          have hne : ¬ l2.ch = -1 := by omega
+          simp only [hne, if_false, Option.some.injEq] at hfin
+          obtain ⟨_, _, _, p4, _⟩ := consume_pinv sp.opts sp.v l2 h2.pinv hch0
+          obtain ⟨r1, r2, r3, r4, _⟩ := rewind_pinv sp.opts sp.v l2 l2.scanOffset p4 h2.pinv
+          rw [← hfin]
+          simp only [absOut, r2, r4]
+          simp only [htok, hso, hoff]
+      · simp only [heq, if_false, Option.some.injEq] at hfin
+        have hsz : ¬ l2.offset - l.offset = 0 := by omega
+        simp only [hsz, if_false]
+        rw [← hfin]
+        simp only [absOut, htok]
+        congr 2
+        omega
+  · -- a usable action
+    have hok : actOk sp [] (actionStart sp.t - s'.state) = true := by
+      rcases hfinal with hf | hf
+      · exfalso; apply hact; rw [hf]; unfold invCode; omega
+      · exact hf
+    obtain ⟨_, ainv, _⟩ := actOk_facts sp _ hok
+    obtain ⟨tok, t1, t2, t3⟩ := finish_valid_eq sp w 1 _ s' l2 hok
+    rw [t3] at hfin
+    have hres : scanResult sp s' l2 = (l2.offset - l.offset, actionStart sp.t - s'.state) := by
+      unfold scanResult; rw [htok]
+      have : ¬ (actionStart sp.t - s'.state = invalidAct sp ∧ 0 ≤ s'.backup) := fun h => hact h.1
+      simp [this]
+    rw [hres] at hscan'
+    rw [specOnce_valid sp l.source l.state l.offset _ _ hscan' ainv]
+    have hend : l.offset + (l2.offset - l.offset) = l2.offset := by omega
+    have htext : l2.text = slice l.source l.offset l2.offset := by
+      unfold Lexer.text; rw [hsrc, htok]
+    have hcs : classSwitch sp (actionStart sp.t - s'.state) s'.hash l2.text =
+        classSpec sp (actionStart sp.t - s'.state) (slice l.source l.offset l2.offset) := by
+      rw [htext, hh.hash, hsrc, htok]; exact classSwitch_eq_spec sp hk _ _
+    rw [hcs] at t1 hfin
+    rw [hend, t1]
+    simp only [Option.some.injEq] at hfin
+    rw [← hfin]
+    by_cases hsp : sp.spaceActions.contains (classSpec sp (actionStart sp.t - s'.state) (slice l.source l.offset l2.offset)) = true
+    · simp only [hsp, if_true, absOut]
+    · have hsp' : sp.spaceActions.contains (classSpec sp (actionStart sp.t - s'.state) (slice l.source l.offset l2.offset)) = false := by
+        simpa using hsp
+      simp only [hsp', Bool.false_eq_true, if_false, absOut, htok]
+
+/-! ### the restart loop against the specification -/
+
+theorem nextLoop_refines (sp : Spec) (w : WFacts sp) (hc : ClassOk sp) (he : eoiFinal sp.t = true)
+    (hk : HashOk sp) : ∀ (fuel : Nat) (l : Lexer), PInv sp.opts sp.v l → ValidState sp l →
+    ∀ (tok : Int) (l' : Lexer), nextLoop sp fuel l = some (tok, l') →
+    specNextLoop sp l.source l.state fuel l.offset = some (tok, l'.tokenOffset, l'.offset) := by
+  intro fuel
+  induction fuel with
+  | zero => intro l _ _ tok l' h; simp [nextLoop] at h
+  | succ fuel ih =>
+    intro l hp hv tok l' h
+    obtain ⟨out, h1, h2⟩ := nextOnce_spec sp w l hp hv
+    have hr := nextOnce_refines sp w hc he hk l hp hv out h1
+    simp only [nextLoop, h1] at h
+    simp only [specNextLoop, hr]
+    cases out with
+    | restart l1 =>
+      simp only at h
+      obtain ⟨q1, q2, q3, _⟩ := h2
+      have q2' : l1.source = l.source := q2
+      have q3' : l1.state = l.state := q3
+      have hv1 : ValidState sp l1 := by intro hm; rw [q3']; exact hv hm
+      have := ih l1 q1 hv1 tok l' h
+      rw [q2', q3'] at this
+      simpa [absOut] using this
+    | token tok1 l1 =>
+      simp only [Option.some.injEq, Prod.mk.injEq] at h
+      simp only [absOut, Option.some.injEq, Prod.mk.injEq]
+      exact ⟨h.1, by rw [h.2], by rw [h.2]⟩
+
+/-- A text `[a, b)` that consists of consecutive matches of space rules, as `Tables.Scan` finds them. -/
+inductive SpaceChain (sp : Spec) (src : List UInt8) (state : Int) : Nat → Nat → Prop
+  | refl (a : Nat) : SpaceChain sp src state a a
+  | step {a b : Nat} (size : Nat) (act : Int) :
+      scanG sp.t (invalidAct sp) sp.opts.scanBytes (startIndex sp state) (src.drop a) = some (size, act) →
+      isInvalid sp act = false → 0 < size →
+      sp.spaceActions.contains (classSpec sp act (slice src a (a + size))) = true →
+      SpaceChain sp src state (a + size) b → SpaceChain sp src state a b
+
+theorem specOnce_restart_inv (sp : Spec) (src : List UInt8) (state : Int) (off off' : Nat)
+    (h : specOnce sp src state off = some (.restart off')) :
+    ∃ size act, scanG sp.t (invalidAct sp) sp.opts.scanBytes (startIndex sp state) (src.drop off) = some (size, act) ∧
+      isInvalid sp act = false ∧ off' = off + size ∧
+      sp.spaceActions.contains (classSpec sp act (slice src off (off + size))) = true := by
+  unfold specOnce at h
+  cases hs : scanG sp.t (invalidAct sp) sp.opts.scanBytes (startIndex sp state) (src.drop off) with
+  | none => rw [hs] at h; exact nomatch h
+  | some r =>
+    obtain ⟨size, act⟩ := r
+    rw [hs] at h
+    simp only at h
+    cases hi : isInvalid sp act with
+    | true =>
+      rw [hi] at h
+      simp only [if_true] at h
+      cases ht : tokenOf sp act with
+      | none => rw [ht] at h; exact nomatch h
+      | some tok =>
+        rw [ht] at h
+        simp only at h
+        split at h
+        · split at h <;> simp at h
+        · simp at h
+    | false =>
+      rw [hi] at h
+      simp only [Bool.false_eq_true, if_false] at h
+      cases ht : tokenOf sp (classSpec sp act (slice src off (off + size))) with
+      | none => rw [ht] at h; exact nomatch h
+      | some tok =>
+        rw [ht] at h
+        simp only at h
+        split at h
+        · rename_i hsp
+          simp only [Option.some.injEq, SpecOutcome.restart.injEq] at h
+          exact ⟨size, act, rfl, hi, h.symm, hsp⟩
+        · simp at h
+
+theorem restarts_chain (sp : Spec) (w : WFacts sp) (hc : ClassOk sp) (he : eoiFinal sp.t = true)
+    (hk : HashOk sp) (l lm : Lexer) (hr : Restarts sp l lm) :
+    PInv sp.opts sp.v l → ValidState sp l →
+    SpaceChain sp l.source l.state l.offset lm.offset ∧ PInv sp.opts sp.v lm ∧ ValidState sp lm ∧
+    lm.source = l.source ∧ lm.state = l.state := by
+  induction hr with
+  | refl l => intro hp hv; exact ⟨SpaceChain.refl _, hp, hv, rfl, rfl⟩
+  | @step l l1 l2 h1 _ ih =>
+    intro hp hv
+    obtain ⟨out, o1, o2⟩ := nextOnce_spec sp w l hp hv
+    rw [h1] at o1
+    simp only [Option.some.injEq] at o1
+    subst o1
+    obtain ⟨q1, q2, q3, q4⟩ := o2
+    have q2' : l1.source = l.source := q2
+    have q3' : l1.state = l.state := q3
+    have q4' : l.offset < l1.offset := q4
+    have hv1 : ValidState sp l1 := by intro hm; rw [q3']; exact hv hm
+    obtain ⟨c, p, v, s1, s2⟩ := ih q1 hv1
+    have hspec := nextOnce_refines sp w hc he hk l hp hv _ h1
+    obtain ⟨size, act, e1, e2, e3, e4⟩ := specOnce_restart_inv sp l.source l.state l.offset _ hspec
+    have e3' : l1.offset = l.offset + size := e3
+    rw [q2', q3', e3'] at c
+    exact ⟨SpaceChain.step size act e1 e2 (by omega) e4 c, p, v, s1.trans q2', s2.trans q3'⟩
 
 end TmVerif.LexRun
